@@ -7,7 +7,7 @@ Open Scope N_scope.
 (* byte-string literals: B"text" elaborates to the literal list of byte values (no Coq string survives, so nothing of the
    string type reaches extraction) *)
 Definition b_of_string (s : string) : list N := map N_of_ascii (list_ascii_of_string s).
-Notation "'B' s" := ltac:(let v := eval vm_compute in (b_of_string s%string) in exact v) (at level 0, s at level 0, only parsing).
+Notation "'B' s" := ltac:(let v := eval cbv in (b_of_string s%string) in exact v) (at level 0, s at level 0, only parsing).
 
 Definition bstr := list N.
 
